@@ -157,18 +157,19 @@ def run_case(desc, V):
         acc = x
         claims += mv_eq_claims('x**0', x ** 0, {0: 1})
         claims += mv_eq_claims('x**1', x ** 1, X)
-        for n in (2, 3, 4):
+        nmax = 12 if len(desc['ka']) <= 2 else 7
+        for n in range(2, nmax + 1):
             acc = acc * x
-            claims += mv_eq_claims(f'x**{n}', x ** n, coeffs(acc))
+            claims += mv_eq_claims(f'pow[{n}]', x ** n, coeffs(acc))
         try:
             xi = x.inv()
         except ZeroDivisionError:
             return claims
         acc = xi
         claims += mv_eq_claims('x**-1', x ** -1, coeffs(xi))
-        for n in (2, 3):
+        for n in range(2, (9 if len(desc['ka']) <= 2 else 6)):
             acc = acc * xi
-            claims += mv_eq_claims(f'x**-{n}', x ** (-n), coeffs(acc))
+            claims += mv_eq_claims(f'negpow[{n}]', x ** (-n), coeffs(acc))
         return claims
     if kind == 'norm':
         ns = x.normsq()
